@@ -109,7 +109,7 @@ Proof.
   split.
   - destruct ex_f_hypotheses as [Hwf [Hs [Hc [Hd Hf]]]].
     exact (period_is_deletion_run ZNum ex_w ex_i ex_op ex_f ex_load eq_refl Hwf Hs Hc Hd Hf
-             ltac:(discriminate)).
+             ltac:(discriminate) ltac:(vm_compute; discriminate)).
   - split; [vm_compute; reflexivity|]. split; [vm_compute; lia|]. vm_compute. discriminate.
 Qed.
 
